@@ -19,7 +19,8 @@ PID = "C03"
 RULE = ("one case = random map pipeline (1-5 functions, axes 1-3, zip/outer/reduction/generator/tuple outputs) x "
         "configuration (map|map_async, sequential | SimExecutor thread/process 1-4 workers fifo/any start | per-output "
         "executor dict | patched default pool; file_array|dict|shared_memory_dict uniform or per-output; persist on/off; "
-        "short writes, buffer sizes) x one seeded schedule; oracle relative to the sequential in-memory reference plus an independent call count from "
+        "short writes, buffer sizes) x one seeded schedule; oracle relative to the sequential in-memory reference, which is itself compared with an independent "
+        "reading of the workload (sim/interp.py: MapSpec index arithmetic without pipefunc code) and an independent call count from "
         "the axis sizes; 30% of the cases map the same Pipeline object a second time under another configuration, 10% add a restricted run "
         "(fixed_indices) whose calls must all be calls of the full run; mapped root arrays may come from PipeFunc defaults (alone, or of another "
         "length and overridden by the input). "
@@ -175,6 +176,10 @@ def _run_case(case, exec_seed, exec_tape, stack):
     def V(oracle, kind, detail=None):
         viol.append({"property": PID, "oracle": oracle, "kind": kind, "detail": detail})
 
+    if C.report_mismatch(ref, V):
+        out.update(exec_tape=[], digest=C.digest_of([describe(w), "independent"]), sim_time=0.0, yields=0,
+                   probes={"independent_reading_disagrees": 1}, sample={"workload": describe(w), "config": cfg})
+        return out
     runs = [("first", cfg)] + ([("second", case["second"])] if case.get("second") else [])
     if case.get("restricted"):
         rcfg = dict(cfg, fixed=case["restricted"], run_folder=True)
